@@ -117,6 +117,26 @@ class _Return(Exception):
 
 
 FSYM = sp.Function("F")
+TRUNC = sp.Function("trunc")      # conversion to int of a non-integer value: truncation toward zero (NOT floor for negative arguments)
+
+
+def _intlike(t) -> bool:
+    if t.is_integer or isinstance(t, (sp.floor, sp.ceiling)):
+        return True
+    if isinstance(t, (sp.Add, sp.Mul, sp.Min, sp.Max)):
+        return all(_intlike(a) for a in t.args)
+    return False
+
+
+def _to_int(v):
+    def one(t):
+        t = sp.sympify(t)
+        return t if _intlike(t) else TRUNC(t)
+    if isinstance(v, np.ndarray):
+        return np.frompyfunc(one, 1, 1)(v) if v.size else v
+    if isinstance(v, (sp.Expr, int)) and not isinstance(v, bool):
+        return one(v)
+    return v
 
 
 def _num(v):
@@ -600,7 +620,7 @@ class Ev:
                 return int(v.shape[0])
             raise self.und("len of unmodelled value")
         if d in ("int", "float") and len(e.args) == 1:
-            return self.ev(e.args[0])
+            return _to_int(self.ev(e.args[0])) if d == "int" else self.ev(e.args[0])
         if d == "list" and not e.args:
             return []
         # methods of values
@@ -608,6 +628,8 @@ class Ev:
             base = self.ev(f.value)
             if isinstance(base, Unknown):
                 return Unknown(base.why)
+            if nm == "astype" and len(e.args) == 1 and u(e.args[0]) in ("int", "np.int32", "np.int64", "np.int_", "'int'", "'i8'", "'i4'"):
+                return _to_int(base)
             if nm == "astype" or (nm == "copy" and not e.args):
                 return base.copy() if isinstance(base, np.ndarray) and nm == "copy" else base
             if nm == "reshape":
@@ -1123,6 +1145,13 @@ def _check_inverse_pair(ctx: Ctx, mod, worlds: dict) -> None:
         w.search = [res.ravel()[j] for j in range(d)]
         for j in range(d):
             t = res.ravel()[j]
+            if getattr(t, "func", None) == TRUNC and cname == ADPT:
+                w.search_inconsistent = True
+                ctx.check("R4", False, mod, f"{owner}._find_base_vertex", fn,
+                          f"[{cname}, d={d}] the cell index of axis {j} is obtained by converting {t.args[0]} to int, i.e. by truncation toward zero; the lattice of the "
+                          f"adaptive table extends below its base point, and for x below the base point truncation gives the index of the cell ABOVE (floor is needed)",
+                          construct=f"{cname}: cell index by floor on axis {j} [d={d}]")
+                continue
             fl = [t] if isinstance(t, sp.floor) else [a_ for a_ in t.args if isinstance(a_, sp.floor)] if isinstance(t, (sp.Min, sp.Max)) else []
             if len(fl) != 1 or (t is not fl[0] and any(a_.has(w.x.ravel()[j]) for a_ in t.args if a_ is not fl[0])):
                 raise Undecided(f"{IT}:{cname}._find_base_vertex: index of axis {j} is not a (clamped) floor division: {t}")
@@ -1231,6 +1260,19 @@ def _deps(fn: ast.FunctionDef, name: str) -> set[str]:
                 if any(isinstance(n, ast.Name) and n.id == nm for t in ts for n in ast.walk(t)):
                     todo += list(_order_names(s.value))
     return seen
+
+
+AO = "src/porepy/utils/array_operations.py"
+
+
+def _callee_default(ctx: Ctx, pname: str) -> Optional[ast.expr]:
+    fn = ctx.repo.module(AO).func("SparseNdArray.add")
+    args = fn.args.args
+    names = [a.arg for a in args]
+    if pname not in names:
+        raise AnchorError(f"{AO}:SparseNdArray.add has no parameter {pname}")
+    k = names.index(pname) - (len(names) - len(fn.args.defaults))
+    return fn.args.defaults[k] if k >= 0 else None
 
 
 def _check_adaptive(ctx: Ctx, mod, worlds: dict, roles: dict) -> None:
@@ -1393,6 +1435,15 @@ def _check_adaptive(ctx: Ctx, mod, worlds: dict, roles: dict) -> None:
         user_ordered = any(params & _deps(fn, n) for n in names_in(key)) if key is not None else False
         if not user_ordered:
             continue
+        # keys chosen by the caller may repeat or name nodes that are already stored: the write must OVERWRITE, an assigned value is a value, not an increment
+        mode = arg_or_kw(addc[0], 2, "additive")
+        if mode is None:
+            mode = _callee_default(ctx, "additive")
+        if not (isinstance(mode, ast.Constant) and isinstance(mode.value, bool)):
+            raise Undecided(f"{IT}:{ADPT}.{mname}: write mode `{u(mode) if mode is not None else '?'}` of self.{T}.add is not a constant")
+        ctx.check("R4", mode.value is False, mod, f"{ADPT}.{mname}", addc[0],
+                  f"{mname} stores caller-supplied values with additive={mode.value}: a node that is assigned again (or twice in one batch) then holds the SUM of the "
+                  f"assigned values, and the table no longer interpolates the assigned function", construct=f"{mname}: caller-supplied values overwrite")
         # name bound to the permutation returned by add
         perm = None
         for s in walk_local(fn):
@@ -1516,6 +1567,9 @@ MUTANTS = [
     # R6 closed box
     _m("interpolate-loses-boundary-mask", "            values[:, inside_grid] += (\n                weight[inside_grid] * self._values[:, eval_ind[inside_grid]]\n            )\n",
        "            values += weight * self._values[:, eval_ind]\n", "R6"),
+    _m("seed-cell-index-by-truncation", "            floored_ind = ((x_i - base_i) // h_i).astype(int)\n",
+       "            exact_ = (x_i - base_i) / h_i\n            floored_ind = exact_.astype(int)\n", "R4"),
+    _m("seed-assign-values-additive", "self._table.add(ind_list, val, additive=False)", "self._table.add(ind_list, val, additive=True)", "R4"),
     # R5
     _m("revert-fix-default-base-point-uses-dim", "            base_point = np.zeros(dx.size)\n", "            base_point = np.zeros(dim)\n", "R5", control=True),
     _m("default-base-point-self-dim", "            base_point = np.zeros(dx.size)\n", "            base_point = np.zeros(self.dim)\n", "R5"),
